@@ -91,9 +91,9 @@ instance (s : State) : Decidable (KeysUnique s) := by unfold KeysUnique; infer_i
 
 /-! ### the invariants -/
 
-/-- What holds of the code as it is after every history: everything the property asks for
-except "every session belongs to an existing scope", which holds only for sessions that hold a
-record (`UsedSessionsHaveScope` follows from the three record clauses). -/
+/-- The part of the invariant that does not mention "every session has a scope" (it also held
+of the code before the repair ab8bb51a7; `UsedSessionsHaveScope` follows from the three record
+clauses). -/
 structure Inv (s : State) : Prop where
   keys : KeysUnique s
   recSession : RecordsHaveSession s
@@ -107,7 +107,8 @@ structure Inv (s : State) : Prop where
   voScope : ValueOwnersHaveScope s
   navScope : NavsHaveScope s
 
-/-- The property's full referential-integrity and lookup claim. -/
+/-- The property's full referential-integrity and lookup claim: holds after every history of the
+current code (`PvProofs.C14.refInv_reachable`). -/
 def FullInv (s : State) : Prop := Inv s ∧ SessionsHaveScope s
 
 /-! ### "deleting a scope removes all of its sessions, records, lookups and net asset values" -/
